@@ -1,5 +1,4 @@
 // ---- unit prelude: offsets (C01, C18) ----
-pub const RETAINED_BATCH_HEADER_LEN: u64 = 8 + 8 + 4 + 4;
 
 pub open spec fn acc_wf(a: &BatchAccumulator) -> bool {
     a.messages@.len() > 0 ==> {
@@ -121,3 +120,101 @@ pub open spec fn seg_wf(s: &Segment) -> bool {
             (#[trigger] s.index_writer->0.idx()[i]).offset == seg_disk(s)[i].base + seg_disk(s)[i].delta - s.start_offset
 }
 
+
+// --- moka cache of seen message ids (A-dep moka): a set, within the configured capacity and TTL ---
+#[verifier::external_body]
+pub struct MokaCache { x: u8 }
+impl MokaCache {
+    pub uninterp spec fn seen(&self) -> Set<u128>;
+    #[verifier::external_body]
+    pub fn contains_key(&self, id: &u128) -> (r: bool) ensures r == self.seen().contains(*id), { unimplemented!() }
+    #[verifier::external_body]
+    pub fn insert(&mut self, id: u128, v: bool) ensures final(self).seen() == old(self).seen().insert(id), { unimplemented!() }
+}
+// in-memory message cache of the partition (C02's business): opaque here
+#[verifier::external_body]
+pub struct SmartCache { x: u8 }
+impl SmartCache {
+    #[verifier::external_body]
+    pub fn extend(&mut self, msgs: Vec<RetainedMessage>) { unimplemented!() }
+}
+
+// --- deduplication oracle: which of the first n messages are kept, given the ids already seen ---
+pub open spec fn kept_prefix(seen0: Set<u128>, msgs: Seq<Message>, n: int) -> (Seq<Message>, Set<u128>)
+    decreases n,
+{
+    if n <= 0 { (Seq::empty(), seen0) } else {
+        let (k, s) = kept_prefix(seen0, msgs, n - 1);
+        let m = msgs[n - 1];
+        if s.contains(m.id) { (k, s) } else { (k.push(m), s.insert(m.id)) }
+    }
+}
+pub open spec fn dedup_seen(p: &Partition) -> Set<u128> { p.message_deduplicator->0.cache.seen() }
+// the messages a send keeps: all of them without deduplication, first occurrences (w.r.t. ids seen before and
+// earlier in the same batch) with it
+pub open spec fn kept_of(p: &Partition, msgs: Seq<Message>) -> Seq<Message> {
+    if p.message_deduplicator is Some { kept_prefix(dedup_seen(p), msgs, msgs.len() as int).0 } else { msgs }
+}
+// retained form of kept messages: offsets base, base+1, ... in order, same ids and content
+pub open spec fn retained_as(r: Seq<RetainedMessage>, kept: Seq<Message>, base: int) -> bool {
+    &&& r.len() == kept.len()
+    &&& forall|i: int| 0 <= i < r.len() ==> (#[trigger] r[i]).offset == base + i && r[i].id == kept[i].id && r[i].content == kept[i].content
+}
+
+// --- partition view ---
+pub open spec fn next_offset(p: &Partition) -> int {
+    if p.should_increment_offset { p.current_offset + 1 } else { 0 }
+}
+pub open spec fn last_seg(p: &Partition) -> &Segment { &p.segments@[p.segments@.len() - 1] }
+
+// What the send path needs of the partition: the last segment is where the next offset goes.
+//  - open last segment: well-formed, and the offset after its last message is next_offset(p)
+//  - closed last segment: next_offset(p) follows its end_offset (roll-over creates the successor there)
+pub open spec fn part_wf(p: &Partition) -> bool {
+    &&& p.segments@.len() >= 1
+    &&& !last_seg(p).is_closed ==> seg_wf(last_seg(p)) && last_seg(p).start_offset + seg_msgs(last_seg(p)).len() == next_offset(p)
+    &&& last_seg(p).is_closed ==> last_seg(p).end_offset + 1 == next_offset(p) && last_seg(p).start_offset <= last_seg(p).end_offset
+    &&& forall|i: int| 0 <= i < p.segments@.len() - 1 ==> (#[trigger] p.segments@[i]).start_offset < next_offset(p)
+    &&& last_seg(p).start_offset <= next_offset(p)
+}
+
+impl Partition {
+    // Partition::add_persisted_segment (partitions/segments.rs): Segment::create + persist + push + sort_by start_offset.
+    // Under contract in unit `retention`; here its effect for a start offset above every existing one.
+    #[verifier::external_body]
+    pub fn add_persisted_segment(&mut self, start_offset: u64) -> (r: Result<(), IggyError>)
+        requires forall|i: int| 0 <= i < old(self).segments@.len() ==> (#[trigger] old(self).segments@[i]).start_offset < start_offset,
+        ensures
+            r is Err ==> *final(self) == *old(self),
+            r is Ok ==> {
+                &&& final(self).segments@.len() == old(self).segments@.len() + 1
+                &&& forall|i: int| 0 <= i < old(self).segments@.len() ==> final(self).segments@[i] == old(self).segments@[i]
+                &&& seg_wf(last_seg(final(self))) && last_seg(final(self)).start_offset == start_offset
+                &&& seg_msgs(last_seg(final(self))).len() == 0 && last_seg(final(self)).size_bytes == 0
+                &&& last_seg(final(self)).unsaved_messages is None
+                &&& last_seg(final(self)).last_index_position == 0
+                &&& *final(self) == (Partition { segments: final(self).segments, segments_count_of_parent_stream: final(self).segments_count_of_parent_stream, ..*old(self) })
+            },
+    { unimplemented!() }
+}
+
+pub open spec fn old_last_open(p: &Partition) -> bool { !last_seg(p).is_closed }
+// every message of a segment, wherever it lives
+pub open spec fn seg_all(s: &Segment) -> Seq<RetainedMessage> { flat(seg_disk(s)) + seg_buf(s) }
+// arithmetic room for the size counters (sizes are u64; not a property concern)
+pub open spec fn size_room(p: &Partition, add: int) -> bool {
+    &&& !last_seg(p).is_closed ==> last_seg(p).size_bytes + add + RETAINED_BATCH_HEADER_LEN <= u64::MAX
+    &&& add + RETAINED_BATCH_HEADER_LEN <= u64::MAX
+    &&& (!last_seg(p).is_closed && last_seg(p).unsaved_messages is Some) ==> last_seg(p).unsaved_messages->0.current_size + add <= u64::MAX
+}
+
+// A-size (assumption, listed): positions in a segment's log file are u32, so the file stays below 4 GiB. Config
+// validation caps segment.size at 1 GB, a segment is closed once size_bytes >= size, and one batch is bounded by
+// the transport's maximum payload; the arithmetic `last_index_position += batch_size as u32` relies on it.
+#[verifier::external_body]
+pub proof fn assume_segment_below_4g(s: &Segment)
+    ensures s.last_index_position + total_size(seg_buf(s)) + RETAINED_BATCH_HEADER_LEN <= u32::MAX,
+        // every stored message takes at least one byte, so the segment holds fewer than 2^32 messages
+        // (relative offsets in index records are u32)
+        seg_msgs(s).len() <= u32::MAX,
+{}
